@@ -7,9 +7,19 @@ package marbl
 
 // ---------------------------------------------------------------------------------------------
 // C19: the frame reader never panics.
+// nFull counts successful-or-not io.ReadFull calls; fullBuf is the buffer of the last one. Every part of a frame (10 byte
+// head, length fields, payload) is read with ReadFull: a frame is returned only when all its bytes were there.
+//@ ghost var nFull int
+//@ ghost var fullBuf []byte
+//@ extern func io.ReadFull
+//@   modifies buf[*], nFull, fullBuf
+//@   ensures nFull == old(nFull) + 1 && fullBuf == buf && 0 <= n && n <= len(buf) && (err == nil ==> n == len(buf))
 //@ func (*Reader).ReadFrame
 //@   serves C19
 //@   safe index slice make div assert
+//@   modifies nFull, fullBuf
+//@   noframe
+//@   ensures[every-part-of-a-returned-frame-was-read-completely] result1 == nil ==> nFull == old(nFull) + 3
 
 // ---------------------------------------------------------------------------------------------
 // C19 / C15: frame encoders. nFrames counts the frames handed to the writer goroutine (one channel send each); the
@@ -94,26 +104,44 @@ package marbl
 
 // ---------------------------------------------------------------------------------------------
 // C15: logging changes nothing of the message but its body handle, which is wrapped by a pass-through reader.
+// hdrMap: the header map being logged; hdrFrames[k]: header frames sent for key k. Every value of every header gets its
+// own frame (a multi-valued header such as Set-Cookie must not be collapsed to its first value).
+//@ ghost var hdrMap http.Header
+//@ ghost var hdrFrames gmap[string]int
+//@ ghost var hdrFrames0 gmap[string]int
 //@ extern func (*proxyutil.Header).Map
-//@   ensures result != nil
+//@   modifies hdrMap
+//@   ensures result != nil && hdrMap == result
 //@ func (*Stream).LogRequest
 //@   serves C15 C19
 //@   requires s != nil && req != nil && req.URL != nil && len(id) >= 8 && linked(req)
-//@   modifies req.Body, nFrames, martian.ctxmu.rheld, sync.RWMutex.rheld
+//@   modifies req.Body, nFrames, martian.ctxmu.rheld, sync.RWMutex.rheld, hdrMap, hdrFrames, hdrFrames0
 //@   ensures[only-the-body-handle-is-replaced] typeis(req.Body, *bodyLogger) && as(req.Body, *bodyLogger).body == old(req.Body) && as(req.Body, *bodyLogger).index == 0 &&
 //@        as(req.Body, *bodyLogger).s == s && as(req.Body, *bodyLogger).id == id && as(req.Body, *bodyLogger).mt == Request
 //@   ensures[pseudo-headers-first] nFrames >= old(nFrames) + 8 && result == nil
-//@   loop 0 invariant nFrames >= old(nFrames) + 8 && req.Body == old(req.Body)
-//@   loop 1 invariant nFrames >= old(nFrames) + 8 && req.Body == old(req.Body)
+//@   at call 0 of Map after set hdrFrames0 = hdrFrames
+//@   at call 9 of sendHeader before set hdrFrames = upd(hdrFrames, arg2, hdrFrames[arg2] + 1)
+//@   ensures[one-header-frame-per-header-value] forall q string :: has(hdrMap, q) ==> hdrFrames[q] - hdrFrames0[q] == len(hdrMap[q])
+//@   loop map 0 invariant nFrames >= old(nFrames) + 8 && req.Body == old(req.Body)
+//@   loop map 0 invariant forall q string :: (visited(q) ==> hdrFrames[q] - hdrFrames0[q] == len(hdrMap[q])) && (!visited(q) ==> hdrFrames[q] == hdrFrames0[q])
+//@   loop slice 0 invariant nFrames >= old(nFrames) + 8 && req.Body == old(req.Body) && has(hdrMap, k) && vs == hdrMap[k]
+//@   loop slice 0 invariant forall q string :: q != k ==> (visited(q) ==> hdrFrames[q] - hdrFrames0[q] == len(hdrMap[q])) && (!visited(q) ==> hdrFrames[q] == hdrFrames0[q])
+//@   loop slice 0 invariant hdrFrames[k] - hdrFrames0[k] == rangeindex + 1 && rangeindex < len(vs)
 //@ func (*Stream).LogResponse
 //@   serves C15 C19
 //@   requires s != nil && res != nil && len(id) >= 8 && linked(res.Request)
-//@   modifies res.Body, nFrames, martian.ctxmu.rheld, sync.RWMutex.rheld
+//@   modifies res.Body, nFrames, martian.ctxmu.rheld, sync.RWMutex.rheld, hdrMap, hdrFrames, hdrFrames0
 //@   ensures[only-the-body-handle-is-replaced] typeis(res.Body, *bodyLogger) && as(res.Body, *bodyLogger).body == old(res.Body) && as(res.Body, *bodyLogger).index == 0 &&
 //@        as(res.Body, *bodyLogger).s == s && as(res.Body, *bodyLogger).id == id && as(res.Body, *bodyLogger).mt == Response
 //@   ensures[pseudo-headers-first] nFrames >= old(nFrames) + 4 && result == nil
-//@   loop 0 invariant nFrames >= old(nFrames) + 4 && res.Body == old(res.Body)
-//@   loop 1 invariant nFrames >= old(nFrames) + 4 && res.Body == old(res.Body)
+//@   at call 0 of Map after set hdrFrames0 = hdrFrames
+//@   at call 5 of sendHeader before set hdrFrames = upd(hdrFrames, arg2, hdrFrames[arg2] + 1)
+//@   ensures[one-header-frame-per-header-value] forall q string :: has(hdrMap, q) ==> hdrFrames[q] - hdrFrames0[q] == len(hdrMap[q])
+//@   loop map 0 invariant nFrames >= old(nFrames) + 4 && res.Body == old(res.Body)
+//@   loop map 0 invariant forall q string :: (visited(q) ==> hdrFrames[q] - hdrFrames0[q] == len(hdrMap[q])) && (!visited(q) ==> hdrFrames[q] == hdrFrames0[q])
+//@   loop slice 0 invariant nFrames >= old(nFrames) + 4 && res.Body == old(res.Body) && has(hdrMap, k) && vs == hdrMap[k]
+//@   loop slice 0 invariant forall q string :: q != k ==> (visited(q) ==> hdrFrames[q] - hdrFrames0[q] == len(hdrMap[q])) && (!visited(q) ==> hdrFrames[q] == hdrFrames0[q])
+//@   loop slice 0 invariant hdrFrames[k] - hdrFrames0[k] == rangeindex + 1 && rangeindex < len(vs)
 
 //@ func (*Modifier).ModifyRequest
 //@   serves C15
